@@ -2,3 +2,4 @@
 pub mod common;
 pub mod gal;
 pub mod rng;
+pub mod world;
